@@ -139,6 +139,30 @@ def load_known():
     return res
 
 
+class memory_guard:
+    """soft address-space limit while the harness drives the library: a size read from corrupted bytes must end in a
+    MemoryError inside that operation, not in the kernel killing the check.  Restored before TLC (JVM) is started."""
+
+    def __init__(self, gib=8):
+        self.n = gib << 30
+
+    def __enter__(self):
+        import resource
+        self.old = resource.getrlimit(resource.RLIMIT_AS)
+        try:
+            resource.setrlimit(resource.RLIMIT_AS, (self.n if self.old[1] == resource.RLIM_INFINITY else min(self.n, self.old[1]), self.old[1]))
+        except (ValueError, OSError):
+            pass
+
+    def __exit__(self, *a):
+        import resource
+        try:
+            resource.setrlimit(resource.RLIMIT_AS, self.old)
+        except (ValueError, OSError):
+            pass
+        return False
+
+
 def child_env():
     """environment for python subprocesses that must import xobjects from REPO"""
     e = dict(os.environ)
